@@ -104,6 +104,10 @@ def mkproj(base: str, nroots: Any) -> List[str]:
         (p / 'star' / '_impl.py').write_text('def alpha_fn(): "a"\nclass Beta:\n    "b"\ndef gamma_fn(): "g"\nclass Delta(Beta):\n    "d"\nepsilon = 1\n"e"\ndef _private(): pass\n')
         # one attribute claimed by two extensions at once (attrs and zope.interface): the result must not depend on the order they are loaded in
         (p / 'ext2.py').write_text('import attr, zope.interface\n@attr.s(auto_attribs=True)\nclass Thing:\n    z: int = zope.interface.Attribute("zed")\n    w = attr.ib(default=zope.interface.Attribute("w"))\n')
+        # names that tie under the case-insensitive sort key wherever subclasses are listed ('overridden in', known subclasses, class index):
+        # the order among them must come from the sources, not from a set (R8-C18-a)
+        (p / 'ties.py').write_text('class Base:\n    "base"\n    def run(self): "r"\n    def stop(self): "s"\n'
+                                   + ''.join(f'class {n}(Base):\n    def run(self): pass\n    def stop(self): pass\n' for n in ('Handler', 'handler', 'HANDLER', 'hANDLER')))
         (p / 'z.pyi').write_text('def f() -> None: ...\n')
         (p / 'a.json').write_text('{}')
         (p / 'shapes.c').write_text('/* c */')
